@@ -122,5 +122,29 @@ Definition ops_C11 : list opdef := [
        | [keys; from; h] => match as_zss keys, as_z from, as_z h, as_zs obs with
            | Some keys, Some from, Some h, Some ps => sorted_paths_ok keys from h ps
            | _, _, _, _ => false end
+       | _ => false end |};
+  (* FromStr32 over [from,from+w1), [from+w1,from+w1+w2) and [from,from+w1+w2): the three
+     results, judged by the functional spec and by the composition relation *)
+  {| op_name := "bitmap.FromStr32/split";
+     op_run := fun a => match a with
+       | [s; from; w1; w2] => match as_zs s, as_z from, as_z w1, as_z w2 with
+           | Some s, Some from, Some w1, Some w2 =>
+               if c11_dom from (w1 + w2) && (0 <=? w1) && (0 <=? w2) && bytes_okb s then
+                 match FromStr32 s from (from + w1), FromStr32 s (from + w1) (from + w1 + w2),
+                       FromStr32 s from (from + w1 + w2) with
+                 | Some (k1, v1), Some (k2, v2), Some (k, v) => VL [vzs [k1; v1]; vzs [k2; v2]; vzs [k; v]]
+                 | _, _, _ => VPanic end
+               else VBad
+           | _, _, _, _ => VBad end
+       | _ => VBad end;
+     op_spec := fun a obs => match a with
+       | [s; from; w1; w2] => match as_zs s, as_z from, as_z w1, as_z w2, as_zss obs with
+           | Some s, Some from, Some w1, Some w2, Some [[k1; v1]; [k2; v2]; [k; v]] =>
+               let r1 := spec_FromStr32 s from w1 in
+               let r2 := spec_FromStr32 s (from + w1) w2 in
+               let r := spec_FromStr32 s from (w1 + w2) in
+               (k1 =? fst r1) && (v1 =? snd r1) && (k2 =? fst r2) && (v2 =? snd r2) &&
+               (k =? fst r) && (v =? snd r) && split_ok w1 w2 (k1, v1) (k2, v2) (k, v)
+           | _, _, _, _, _ => false end
        | _ => false end |}
 ].
